@@ -19,14 +19,17 @@
 (***************************************************************************)
 EXTENDS Integers, Sequences, FiniteSets
 
-Blocks == {"if", "unless", "case", "for", "tablerow", "capture", "comment", "raw"}
-Ends == {"endif", "endunless", "endcase", "endfor", "endtablerow", "endcapture", "endcomment", "endraw"}
+\* (lqx_wrap: a block registered by the embedding program - Engine.RegisterBlock - which admits no clauses)
+XBlocks == {"lqx_wrap"}
+XEnds == {"endlqx_wrap"}
+Blocks == {"if", "unless", "case", "for", "tablerow", "capture", "comment", "raw"} \cup XBlocks
+Ends == {"endif", "endunless", "endcase", "endfor", "endtablerow", "endcapture", "endcomment", "endraw"} \cup XEnds
 Clauses == {"else", "elsif", "when"}
 Leaves == {"tag", "obj", "text"}
 Classes == Blocks \cup Ends \cup Clauses \cup Leaves
 
 EndOf(b) == CASE b = "if" -> "endif" [] b = "unless" -> "endunless" [] b = "case" -> "endcase" [] b = "for" -> "endfor"
-              [] b = "tablerow" -> "endtablerow" [] b = "capture" -> "endcapture" [] b = "comment" -> "endcomment" [] b = "raw" -> "endraw"
+              [] b = "tablerow" -> "endtablerow" [] b = "capture" -> "endcapture" [] b = "comment" -> "endcomment" [] b = "raw" -> "endraw" [] b = "lqx_wrap" -> "endlqx_wrap"
 \* which clause tags a block admits directly inside it
 Admits(b, c) == CASE c = "else" -> b \in {"case", "for", "if", "unless"}
                   [] c = "elsif" -> b = "if"
